@@ -65,7 +65,7 @@ func runC14(rc *sim.RunCtx) {
 	}
 	w := h.W
 	defer w.Close()
-	// only alphabetical-key paths in the stores (non-alphabetical key order is C11's subject)
+
 	n := tierLen(rc, h.Ops)
 	for s := 0; s < n; s++ {
 		h.AdvanceClock()
@@ -238,15 +238,17 @@ func runC14(rc *sim.RunCtx) {
 			sort.Strings(extra)
 			sort.Strings(missing)
 			sort.Strings(wrong)
-			// lists whose keys are declared in non-alphabetical order are the subject of C11 (path representations)
+			// requests that run through lists whose keys are declared in non-alphabetical order are marked (item field nonalpha)
 			prop14, pfx := "C14", "C14."
+			nonAlpha := false
 			for _, rp := range paths {
 				for i := range rp {
 					if n := w.SI.Node(rp[:i+1]); n != nil && n.Kind == world.KList && !sort.StringsAreSorted(n.Keys) {
-						prop14, pfx = "C11", "C11.getdata-"
+						nonAlpha = true
 					}
 				}
 			}
+			f["nonalpha"] = fmt.Sprint(nonAlpha)
 			if len(extra) > 0 {
 				ff := copyFields(f)
 				// relation of the extra leaves to the requested paths
